@@ -49,6 +49,9 @@ Start(e) == /\ phase = "live" /\ e.b \notin started \cup failedstart
 Fault(e) == /\ err' = (IF e.fatal /\ simset /\ phase = "live" THEN First(e.e) ELSE err)
             /\ doomed' = (doomed \/ e.doom)
             /\ UNCHANGED <<simset, supf, started, failedstart, stopcnt, sast, sabeg, stopt0, phase, sdrun, sdwant>>
+(* wait_init() returned normally: never in a doomed run (a failed synchronous              *)
+(* initialisation routine is not tried again)                                             *)
+Inited(e) == ~doomed /\ Same
 (* (in a doomed run the clean-up may already be in progress because of an error that no  *)
 (* line announced: an abort() arriving then comes too late)                              *)
 Abort(e) == /\ err' = (IF phase = "finished" \/ (doomed /\ stopt0 # NONE) THEN err ELSE First(e.e))
@@ -64,7 +67,11 @@ SupFail(e) == /\ supf' = (IF supf = NONE THEN e.e ELSE supf)
 Delivered(e) == /\ e.outcome = "delivered" /\ e.deliv /\ e.retok                  \* the handler's result is returned
                 /\ e.got = ExpectedSource(e.src) /\ e.valok /\ e.restok
 Refused(e) == e.outcome = "invalid" /\ ~e.deliv
-Ext(e) == /\ IF ~Ready \/ (doomed /\ stopt0 # NONE) THEN Refused(e)
+(* initfail: the synchronous initialisation that the event triggered failed; the caller    *)
+(* got that exception, nothing was delivered (the fault line just before made the run     *)
+(* doomed)                                                                                *)
+Ext(e) == /\ IF e.outcome = "initfail" THEN doomed /\ ~e.deliv
+             ELSE IF ~Ready \/ (doomed /\ stopt0 # NONE) THEN Refused(e)
              ELSE IF doomed THEN Delivered(e) \/ Refused(e)
              ELSE Delivered(e)
           /\ Same
@@ -130,6 +137,7 @@ Step == /\ l <= Len(Ev(tid))
              /\ \/ e.ev = "begin" /\ Begin(e)
                 \/ e.ev = "start" /\ Start(e)
                 \/ e.ev = "fault" /\ Fault(e)
+                \/ e.ev = "inited" /\ Inited(e)
                 \/ e.ev = "abort" /\ Abort(e)
                 \/ e.ev = "supfail" /\ SupFail(e)
                 \/ e.ev = "stopreq" /\ StopReq(e)
